@@ -94,6 +94,7 @@ The reference encoders written from `docs/specs` (`specFile`, `specFileV01`, `sp
 | F15 | C14 | 27e4acd | `interpolate` placed an observation at new step 0 when no resampled instant lies at or after it (found by the C14 check itself) |
 | F10 | C17 | 4c72ab8 | torch `PointsRepresentation` used `.view` on a transposed tensor: raised for batch or length > 1 |
 | F16 | C19 | 830b739 | `load_openpose` advanced the keypoint index by the number of triples it found, so an empty (undetected) hand / face list shifted every later component (found after a sub-agent's remark, reproduced by the strengthened C19 check) |
+| F17 | C16 | c66bd7c | `TensorflowPoseBody.select_frames([])` raised (`tf.gather` infers float32 for an empty Python list) where the NumPy and torch bodies return the pose of no frames (found when seeded fault C16-h made the C16 generator ask for the empty request) |
 
 Each is recorded as `kind: fixed` in `known_findings.json` (suppresses nothing: the check passes on the repaired tree and reports the violation
 again if it returns — verified for F8 by reverting the commit in the working tree: C09 reports it).
@@ -117,20 +118,21 @@ Each sub-agent received only the text of one property and its own scratch git wo
 for a small change that breaks the property, compiles, keeps the 128 passing tests passing and needs something specific to manifest, with a
 demonstration. Each change was confirmed here (demo passes on the clean tree, fails with the patch, no passing test lost — `tools/seed_verify.py`)
 and is kept as `seeded/<id>/{patch.diff, demo.py, notes.md, meta.json}`; none was ever committed to `/repo` (applied with `git apply`, checks run,
-`git checkout -- .`). 132 faults: two per property in a first round, two per property in a second round (ids `-c`, `-d`; C05 one), two per property in a third round (ids `-e`, `-f`; C02 one) and two more for the seven properties with the most misses so far in a fourth round (ids `-g`, `-h`: C02, C05, C06, C07, C09, C12, C17), in which the sub-agents were
+`git checkout -- .`, or — from round 5 on — the checks were pointed at the scratch worktree itself with `POSE_REPO`, so `/repo` was not touched at all). 158 faults: two per property in a first round, two per property in a second round (ids `-c`, `-d`; C05 one), two per property in a third round (ids `-e`, `-f`; C02 one) and two more for the seven properties with the most misses so far in a fourth round (ids `-g`, `-h`: C02, C05, C06, C07, C09, C12, C17) and two for each of the other thirteen properties in a fifth round (ids `-g`, `-h`), in which the sub-agents were
 additionally told which code sites (function names only) had been used before (two faults were discarded as re-discoveries of stored ones: C05-d = C01-d, C02-f = C01-a; two stored C19 patches were rebased by hand, mechanism unchanged, when the F16 repair touched the same loop). **No request was refused** by the permission system or a safety layer at any step.
 
 SEEDTABLE
 
-Thirty-three faults were missed on the first run by the check of their own property (bold above): in thirty-one cases the generator did not reach the specific
-trigger (in C17-f: the harness never used the same input object twice), in one (C05-c) the faulty reader crashed the node process and the check called that an infrastructure error, and in one (C18-c) the check stopped observing when the
-concurrent reads had returned, so a cache left inconsistent was never read again. The checks were strengthened (last column) and all 132 are now detected by the check of their own property, with `VERIF_SEED` 0 and 3 (the first 79 also with 1); the full regression at seed 3 showed one fault, C14-c, detected only by
-luck of the draw — C14 now starts with a systematic sweep of (frame count × index of the first / last observation);
+Forty-six faults were missed on the first run by the check of their own property (bold above; 13 of the 26 of round 5): in forty-three cases the generator did not reach the specific
+trigger (in C17-f and C20-g: the harness never used the same input object twice; in C10-g: it never looked at an operand again after the operation), in one (C18-h) the sampled double preemptions missed the two precise points and the harness's cooperative lock ignored `blocking=False`, in one (C05-c) the faulty reader crashed the node process and the check called that an infrastructure error, and in one (C18-c) the check stopped observing when the
+concurrent reads had returned, so a cache left inconsistent was never read again. The checks were strengthened (last column) and all 158 are now detected by the check of their own property (REGRESSION_SEEDS); full regressions at other seeds showed two faults detected only by
+luck of the draw — C14-c at seed 3 (C14 now starts with a systematic sweep of frame count × index of the first / last observation) and C03-c at seed 5 (C03 now sweeps every frame boundary in
+milliseconds, one below and one above, at 29.97, 12.5, 25 and 1.5 fps). Round 5 also exposed one more genuine defect of the unchanged tree (F17).
 What the misses had in common (none was an oracle that accepted a wrong answer; every one was an input the harness never produced): (1) **values and shapes** the
 generators did not reach — non-ASCII names beyond one code point, negative / tiny confidences, rates that are not multiples of 0.01, geometry at another scale, headers above the
-10 KiB prefetch, zero-frame files, non-contiguous arrays, limb ≠ colour counts; (2) **state and history** — a header-cache entry left by an earlier read, an in-place edit of a
-result before the next read, the same input object used twice, an array that did not come out of the constructor, a read *after* the concurrent ones; (3) **the same path through
-another class** — torch / tensorflow bodies on truncated or windowed reads, the directory loader next to the dictionary loader; (4) **compositions** — bbox → selection → bbox,
+10 KiB prefetch, zero-frame files, non-contiguous arrays, limb ≠ colour counts, a BOM at the start of a name, matrices with a zero column, NaN under the mask, extents beyond 65 535, the empty request; (2) **state and history** — a header-cache entry left by an earlier read, an in-place edit of a
+result before the next read, the same input object used twice, an array that did not come out of the constructor, a read *after* the concurrent ones, the operand *after* the operation, the same examples collated twice; (3) **the same path through
+another class** — torch / tensorflow bodies on truncated or windowed reads and on selections by name, plain tensors where masked ones are usual, the named method next to the operator, the directory loader next to the dictionary loader (with its own arguments); (4) **compositions** — bbox → selection → bbox,
 interpolate → torch → selection, rejoin → zero_filled. Each strengthening is recorded in the last column and stays in the check; the stored faults are the regression corpus.
 
 `tools/reseed_all.py` re-applies every stored fault to `/repo` in turn and re-runs its check (regression of the mutation corpus); `tools/reseed_parallel.py -j N` does the same on
